@@ -67,7 +67,7 @@ for pid in sorted(props):
         out.append('*Seeded changes (independent sub-agents; each passes the repository suite and fails its own demonstration)*:\n')
         for s in ss:
             det = '; '.join(f'{k}: {v}' for k, v in s['detected_by'].items())
-            out.append(f'- `{s["id"]}` — needs: {s["needs_to_manifest"]}. Detected by {det}.')
+            out.append(f'- `{s["id"]}` — needs: {s["needs_to_manifest"]}. ' + (f'Detected by {det}.' if det else '**Not caught by any check.**'))
         out.append('')
 
 sec3 = '\n'.join(out)
@@ -76,7 +76,7 @@ sec3 = '\n'.join(out)
 rows = ['| seed | property | what it needs to manifest | caught by | missed at first? |', '|---|---|---|---|---|']
 for pid in sorted(seeds):
     for s in seeds[pid]:
-        det = '; '.join(f'{k} ({v.split(";")[0][:90]})' for k, v in s['detected_by'].items())
+        det = '; '.join(f'{k} ({v.split(";")[0][:90]})' for k, v in s['detected_by'].items()) or '**not caught by any check**'
         missed = 'yes - check strengthened' if any('missed at first' in v for v in s['detected_by'].values()) else 'no'
         rows.append(f'| {s["id"]} | {pid} | {s["needs_to_manifest"][:160]} | {det} | {missed} |')
 seedtab = '\n'.join(rows)
